@@ -1,8 +1,8 @@
 (* Number.v — the numeric built-ins of plib/call.py; their arithmetic is TRANSLATED from the source into
-   Gen.Params by harness/gen_params.py (py2coq). *)
+   Gen.PNumeric by harness/gen_params.py (py2coq). *)
 From Coq Require Import String.
 From Coq Require Import List Ascii Bool NArith ZArith QArith Qround.
-Require Import Model.Text Model.ParamTypes Model.Num Model.PyNum Gen.Params.
+Require Import Model.Text Model.ParamTypes Model.Num Model.PyNum Gen.PNumeric.
 Require Export Model.NumLex.
 Import ListNotations.
 Local Open Scope char_scope.
